@@ -141,11 +141,12 @@ def builder_fidelity(ck, F, rid, fn, cls, key, params=None):
     good = True
 
     def verbatim(a, i):
-        a = skip_copies(a)
+        from engine.util import deref_local
+        a = skip_copies(deref_local(fn, skip_copies(a)))
         if is_ref_to(a, fn.params[i]["decl"]):
             return True
         if a.get("k") in ("call", "construct") and len(a.get("args", [])) == 1 and name_is(a.get("callee") or a.get("class") or "", ("move", "std::move", "forward", "std::forward")):
-            return is_ref_to(skip_copies(a["args"][0]), fn.params[i]["decl"])
+            return is_ref_to(skip_copies(deref_local(fn, skip_copies(a["args"][0]))), fn.params[i]["decl"])
         return False
 
     if not right:
